@@ -47,7 +47,7 @@ def meta(tier):
         'level': 'fault_enumeration',
         'rule': ('(a) 14 operators x adversarial pool^2 (0/-0 divisors, 1e308, +-10**400, negative bases x fractional exponents, '
                  'inf/nan, datetimes at year 1/100/9999) and unary x pool through evaluate_expression; (b) every library function x '
-                 'argument lists of length 0..arity+1 from all types under LibrarySpy, debug on/off, every failing call repeated through evaluate_expression with options None / {} / debug without a logFn key, and failing expressions through the exported data functions without options; (c) fault enumeration: in '
+                 'argument lists of length 0..arity+1 from all types under LibrarySpy, debug on/off, every failing call repeated through evaluate_expression with options None / {} / debug without a logFn key, failing expressions through the exported data functions without options, and the debug-mode report of calls failing inside data-function expressions (python API and script functions, with / without the variables object); (c) fault enumeration: in '
                  'generated programs the k-th host call raises each of KeyError, ZeroDivisionError, RecursionError, a custom '
                  'Exception, ValueArgsError(return value) and BareScriptRuntimeError (must propagate), for every call position k, '
                  'compared with the reference call-wrapper semantics; (d) generated programs with / % ** over adversarial initial '
@@ -256,6 +256,7 @@ def run_library(spec, acc, api, con):
                             ('arrayJoin', [[float('inf'), [float('nan')]], ',']), ('jsonStringify', [[float('inf')]]), ('stringNew', [{'a': float('nan')}])]:
             lib_case(fname, [x if callable(x) else copy.deepcopy(x) for x in args], True, acc, api, con, spy)
         data_functions_without_options(acc, api)
+        data_functions_report_failures(acc, api)
 
 
 DOCUMENTED_FAILURE = {'arrayIndexOf': -1, 'arrayLastIndexOf': -1, 'arrayLength': 0, 'objectHas': False, 'stringIndexOf': -1,
@@ -380,6 +381,58 @@ def data_functions_without_options(acc, api):
             except Exception as exc:  # pylint: disable=broad-except
                 acc.violation('host-exception-escaped', f'{label} with expression {expr!r} and no options -> {type(exc).__name__}: {exc}', {'fn': label, 'expr': expr})
                 return
+
+
+def data_functions_report_failures(acc, api):
+    """A function failing INSIDE the expression of a data function (python API and script functions, with and without the optional
+    variables object, library and host functions) is reported through logFn in debug mode exactly once per failing call, is
+    silent without debug, and the data function still completes."""
+    import bare_script
+    calls = []
+
+    def boom(args, options):  # pylint: disable=unused-argument
+        calls.append(1)
+        raise KeyError('boom')
+    rows = lambda: [{'a': 1, 'b': 'x'}, {'a': 2, 'b': None}, {'a': 3, 'b': 'y'}]  # noqa: E731
+    for inner, fname in (('boom(a)', 'boom'), ("mathSqrt('x')", 'mathSqrt'), ('arrayGet(b, 5)', 'arrayGet')):
+        for debug in (True, False):
+            for variables in (None, {'zz': 1}, {}):
+                for label in ('filter_data', 'add_calculated_field', 'join_data', 'dataFilter', 'dataCalculatedField', 'dataJoin'):
+                    logs = []
+                    del calls[:]
+                    g = dict(api[1])  # the python API evaluates against the globals it is given: supply the library like a running script has it
+                    g.update({'boom': boom, 'dd': rows(), 'ee': rows(), 'vv': variables})
+                    o = {'globals': g, 'logFn': logs.append, 'debug': debug}
+                    case = {'fn': label, 'expr': inner, 'debug': debug, 'variables': variables}
+                    acc.case(('data-debug-report', label, inner, debug, repr(variables)), True)
+                    try:
+                        if label == 'filter_data':
+                            bare_script.filter_data(rows(), inner + ' == null', variables, o)
+                        elif label == 'add_calculated_field':
+                            bare_script.add_calculated_field(rows(), 'cc', inner, variables, o)
+                        elif label == 'join_data':
+                            bare_script.join_data(rows(), rows(), inner, None, False, variables, o)
+                        else:
+                            vs = '' if variables is None else ', vv'
+                            text = {'dataFilter': f"return dataFilter(dd, '{inner} == null'{vs})".replace("('x')", '(\\\'x\\\')'),
+                                    'dataCalculatedField': f"return dataCalculatedField(dd, 'cc', '{inner}'{vs})".replace("('x')", '(\\\'x\\\')'),
+                                    'dataJoin': f"return dataJoin(dd, ee, '{inner}', null, false{vs})".replace("('x')", '(\\\'x\\\')')}[label]
+                            res = bare_script.execute_script(bare_script.parse_script(text), o)
+                            if not isinstance(res, list):
+                                acc.violation('data-function-did-not-complete', f'{text!r} -> {res!r}; {logs[-2:]!r:.300}', case)
+                                return
+                    except Exception as exc:  # pylint: disable=broad-except
+                        acc.violation('host-exception-escaped', f'{label} with a failing call in its expression: {type(exc).__name__}: {exc}', case)
+                        return
+                    lines = [l for l in logs if l.startswith('BareScript:') and f'"{fname}"' in l]
+                    acc.count('data_function_debug_report_checks')
+                    if not debug and lines:
+                        acc.violation('logged-without-debug', f'{label} {inner}: {lines[:2]}', case)
+                        return
+                    if debug and (not lines or (fname == 'boom' and len(lines) != len(calls))):
+                        acc.violation('failure-not-reported-in-debug-mode', f'{label} with expression {inner!r}, variables={variables!r}: {len(lines)} report lines'
+                                      + (f' for {len(calls)} failing calls' if fname == 'boom' else '') + f'; log={logs[:3]!r:.300}', case)
+                        return
 
 
 # ------------------------------------------------------------------ injected host faults (fault enumeration)
